@@ -29,6 +29,8 @@ FILENAME = "in.c"
 # distinct numbers / names for the first / second directive of a sequence
 FORMS = ["line-kw-file", "marker-file-flags", "marker-bare", "pragma-text", "pragma-bare",
          "marker-file-flags-tabs"]
+# pragma lines with trailing blanks (rendered plain only, not in every shape)
+TRAILING_FORMS = ["pragma-text-trailing", "pragma-blanks-only"]
 
 
 def _mk_directive(form, k=0, indent="", hash_gap=None):
@@ -45,6 +47,11 @@ def _mk_directive(form, k=0, indent="", hash_gap=None):
         return layout.line_directive(90 + 100 * k, keyword=False, indent=indent, hash_gap=hash_gap)
     if form == "pragma-text":
         return layout.pragma_directive("omp x(%d)" % k, indent=indent, hash_gap=hash_gap or "")
+    if form == "pragma-text-trailing":
+        return layout.pragma_directive("omp x(%d)" % k, indent=indent, hash_gap=hash_gap or "",
+                                       text_gap="  ", trailing=" \t ")
+    if form == "pragma-blanks-only":
+        return layout.pragma_directive(None, indent=indent, hash_gap=hash_gap or "", trailing=" \t")
     if form == "pragma-bare":
         return layout.pragma_directive(None, indent=indent, hash_gap=hash_gap or "")
     raise ValueError(form)
@@ -163,15 +170,19 @@ def _cases_for_pair(a, b, seps, dir_mode, both_edges):
         if both_edges and s:
             yield {"tokens": [a, b], "seps": [s, s, s]}
     for g in range(3):
-        for f in FORMS:
+        for f in FORMS + TRAILING_FORMS:
             yield {"tokens": [a, b], "seps": ["", " ", ""], "directives": [[g, f, 0, ""]]}
             if g == 2:
                 yield {"tokens": [a, b], "seps": ["", " ", ""], "directives": [[g, f, 0, ""]],
                        "end_newline": False}
+            if f in TRAILING_FORMS:
+                continue
             for hg, ind in DIRECTIVE_SHAPES:
                 yield {"tokens": [a, b], "seps": ["", " ", ""], "directives": [[g, f, 0, ind, hg]]}
             if dir_mode == "thorough":
                 yield {"tokens": [a, b], "seps": [" ", "\n", "\t"], "directives": [[g, f, 0, "  "]]}
+                yield {"tokens": [a, b], "seps": ["\n \n", " \n\t\n", "\n  \n "],
+                       "directives": [[g, f, 0, ""]]}
                 for f2 in FORMS:
                     yield {"tokens": [a, b], "seps": ["", " ", ""],
                            "directives": [[g, f, 0, ""], [g, f2, 1, ""]]}
@@ -425,7 +436,7 @@ def run(tier):
 
     # vacuity guards
     V = len(lexvocab.FULL)
-    if pairs_n < V * V * (4 + 18 * 4) or chars_n < 20 ** L:
+    if pairs_n < V * V * (7 + 18 * 4 + 6) or chars_n < 20 ** L:
         R.fail("vacuous:too-few-cases", {"pairs": pairs_n, "chars": chars_n}, "explored less than the stated bound")
     if len(tot["types"]) < 100 or "TYPEID" not in tot["types"] or "PPPRAGMASTR" not in tot["types"]:
         R.fail("vacuous:comparison-dead", {"types": sorted(tot["types"])}, "too few distinct expected token types")
@@ -448,7 +459,7 @@ def run(tier):
     R.set("char_strings_nonblank", chars_nt)
     R.set("bounds", {
         "vocabulary": V, "separators": lexvocab.SEPARATORS_QUICK if quick else lexvocab.SEPARATORS_THOROUGH,
-        "directive_forms": FORMS, "directive_sequences": 1 if quick else 2,
+        "directive_forms": FORMS + TRAILING_FORMS, "directive_sequences": 1 if quick else 2,
         "directive_shapes(hash_gap,indent)": [["", ""]] + [[h, i] for h, i in DIRECTIVE_SHAPES],
         "pragma_tokens_in_stream": lexvocab.PRAGMA_TOKENS,
         "triple_vocabulary": 0 if quick else len(lexvocab.TRIPLE),
